@@ -4,7 +4,7 @@
    A fact / fluent is given as its name and argument names; objects and constants are name -> type-name dicts
    ({**objects, **constants}: a constant shadows an object of the same name).  Definitions only. *)
 From Coq Require Import List String Bool Arith.
-From Verif Require Import Base.Result Base.Str Base.PyDict Model.Types Model.Domain.
+From Verif Require Import Base.Result Base.Str Base.Sexp Base.PyDict Model.Types Model.Domain.
 Import ListNotations.
 Open Scope string_scope.
 Open Scope list_scope.
@@ -55,6 +55,17 @@ Section Sites.
              if all_subtypes (dvalues by_name) (dvalues sg) then Ok tt else Err EAssert
     end.
 
+  (* the same function after the proposed repair D31 (proposed_fixes/D31.diff: argument i checked against parameter i,
+     as ProblemParser does since D19c) - NOT what /repo does until that repair is committed *)
+  Definition trajectory_fluent_positional (f : string) (args : list string) : result unit :=
+    match dget (d_funcs dom) f with
+    | None => Err EAssert
+    | Some sg =>
+        if negb (Nat.eqb (List.length args) (List.length sg)) then Err EValue
+        else do tys <- mapM type_of_name args;
+             if all_subtypes tys (dvalues sg) then Ok tt else Err EAssert
+    end.
+
   Definition trajectory_fact (p : string) (args : list string) : result unit :=
     match dget (d_preds dom) p with
     | None => Err EValue
@@ -73,3 +84,36 @@ End Sites.
 Definition pipeline_objects (dom : mdomain) (objs : pydict string) : pydict string := dupdate (d_consts dom) objs.
 (* the pinned behaviour, kept for the refutation theorem *)
 Definition pipeline_objects_before_D30 (dom : mdomain) (objs : pydict string) : pydict string := objs.
+
+(* ---------- a corner of DomainParser.parse_types where Model/Types.collect_decls differs from the code ----------
+   '(:types - (x))': a LIST right after a dash while no name is pending.  Python reads parent_name = the list, assigns it to
+   nobody and goes on: the section is ACCEPTED (the list is dropped).  Model/Types.collect_decls answers Err EType there
+   (the shared definition cannot change: Proofs/C01_Typed.collect_decls_spec states 'accepted -> every token is an atom',
+   see requests/C06.md).  This local copy has the corrected branch; the C06 check compares the raw shapes with IT.
+   With pending names the list becomes a dict VALUE and 'parent_name not in declared_parents' raises TypeError
+   (unless a later line re-declares every such child - '(:types a - (x) a - b)' - a shape neither copy describes). *)
+Fixpoint collect_decls_code (toks : list sexp) (same : list string) (d : typetable)
+  : result (typetable * list string) :=
+  match toks with
+  | [] => Ok (d, same)
+  | SList _ :: _ => Err EType
+  | Atom t :: rest =>
+      if String.eqb t "-" then
+        match rest with
+        | [] => Err EIndex
+        | SList _ :: rest' => match same with [] => collect_decls_code rest' [] d | _ => Err EType end
+        | Atom p :: rest' =>
+            collect_decls_code rest' [] (fold_left (fun acc c => dset acc c p) same d)
+        end
+      else collect_decls_code rest (same ++ [t]) d
+  end.
+
+Definition parse_types_code (toks : list sexp) : result typetable :=
+  match collect_decls_code toks [] [] with
+  | Err k => Err k
+  | Ok (d, trailing) =>
+      let d1 := fold_left (fun acc c => dset acc c "object") trailing d in
+      let d2 := add_parent_only d1 in
+      let d3 := filter (fun kv => negb (String.eqb (fst kv) "object")) d2 in
+      if forallb (fun kv => reaches_object d3 (fst kv)) d3 then Ok d3 else Err ESyntax
+  end.
